@@ -1643,6 +1643,19 @@ class Interp:
         if t in (ast.In, ast.NotIn):
             if isinstance(b, Obj):
                 return self._obj_compare(l, op, r, a, b, st, fn, truth, depth)
+            if isinstance(b, Tup) and isinstance(a, Iv) and all(isinstance(x, Iv) and x.const for x in b.items):
+                members = sorted({x.lo for x in b.items})
+                want_in = (t is ast.In) == truth
+                if a.const:
+                    return [st] if (a.lo in members) == want_in else []
+                inside_ = [m for m in members if a.lo <= m <= a.hi]
+                if want_in:
+                    if not inside_:
+                        return []
+                    k0 = self.key_of(l, fn) if isinstance(l, (ast.Name, ast.Attribute)) else None
+                    return [st.refine(k0, Iv(min(inside_), max(inside_), a.prec)) if k0 is not None else st]
+                if a.bounded and a.hi - a.lo < 64 and all(v in members for v in range(int(a.lo), int(a.hi) + 1)):
+                    return []
             return [st]
         if isinstance(a, Obj) and t in (ast.Lt, ast.LtE, ast.Gt, ast.GtE, ast.Eq, ast.NotEq) and not isinstance(b, NoneV):
             return self._obj_compare(l, op, r, a, b, st, fn, truth, depth)
